@@ -6,6 +6,7 @@ import (
 	"context"
 	"fmt"
 	"math/big"
+	"os"
 	"sort"
 	"strconv"
 	"strings"
@@ -312,6 +313,19 @@ func (e *Env) Exec(line string) string {
 			continue
 		}
 		b.WriteString(ev + "\n")
+	}
+	// C14: with HARNESS_EVENTS=1 the ordered events of the op (module and bank events, as
+	// the EventManager recorded them) are printed too; the model does not produce them, they
+	// are compared between repeated executions only.
+	if os.Getenv("HARNESS_EVENTS") == "1" && res == "res ok" {
+		for _, ev := range e.ctx.EventManager().Events() {
+			var sb strings.Builder
+			sb.WriteString("E " + ev.Type)
+			for _, a := range ev.Attributes {
+				sb.WriteString(" " + a.Key + "=" + strings.ReplaceAll(a.Value, " ", "_"))
+			}
+			b.WriteString(sb.String() + "\n")
+		}
 	}
 	for _, r := range rlines {
 		b.WriteString("R " + r + "\n")
